@@ -43,6 +43,7 @@ type c14Case struct {
 	Op       string         `json:"op"`   // install install-dry template upgrade upgrade-dry lint
 	Skip     bool           `json:"skip"` // SkipSchemaValidation
 	SkipCRDs bool           `json:"skipCRDs"`
+	Flags    []string       `json:"flags,omitempty"` // command-layer cases: the flags given on the command line
 	Chart    *vChart        `json:"chart"`
 	Vals     map[string]any `json:"vals"`
 }
@@ -224,6 +225,13 @@ func (*c14) Execute(ci any) (res any) {
 	obs.chartTerm = coqChart(ch, c.Chart)
 	obs.compat = compatTable(ch)
 	obs.reference(c)
+	if strings.HasPrefix(c.Op, "cmd-") {
+		obs.runCmd(c)
+		if obs.Names == nil {
+			obs.Names = []string{}
+		}
+		return obs
+	}
 	vals := deepCopyVals(c.Vals)
 	cfg, k := c14Config()
 	const ns = "spaced"
@@ -325,11 +333,14 @@ func (*c14) Oracle(ci, oi any) []hx.Violation {
 	var vs []hx.Violation
 	violated := len(obs.Violated) > 0
 	crdCaveat := c.Op == "install" && !c.SkipCRDs && treeHasCRDs(c.Chart)
+	if c.Kind == "cmd" && c.Skip != hasFlag(c.Flags, c14SkipFlag) {
+		return []hx.Violation{{Sig: "C14:bad-case", What: "command-layer case whose skip field does not reflect its flags"}}
+	}
 	if violated && !c.Skip {
 		if !obs.Errored {
 			vs = append(vs, hx.Violation{Sig: "C14:violation-not-rejected-" + c.Op,
 				What: fmt.Sprintf("%s succeeded although the final values violate the schema of %v", c.Op, obs.Violated)})
-		} else if c.Op != "lint" || obs.Schema {
+		} else if (c.Op != "lint" && c.Op != "cmd-lint") || obs.Schema {
 			for _, n := range obs.Violated {
 				found := false
 				for _, m := range obs.Names {
@@ -357,7 +368,7 @@ func (*c14) Oracle(ci, oi any) []hx.Violation {
 		vs = append(vs, hx.Violation{Sig: "C14:false-reject-" + c.Op,
 			What: fmt.Sprintf("%s was rejected by the schema step (naming %v) although the library accepts every final slice", c.Op, obs.Names)})
 	}
-	if c.Skip && obs.Schema && c.Op != "lint" {
+	if c.Skip && obs.Schema && c.Op != "lint" && c.Op != "cmd-lint" {
 		vs = append(vs, hx.Violation{Sig: "C14:skip-not-honoured-" + c.Op, What: c.Op + " ran the schema gate although skip-schema-validation was set"})
 	}
 	return vs
@@ -381,6 +392,12 @@ func (*c14) CoqCase(ci, oi any) string {
 	c, obs := ci.(c14Case), oi.(c14Obs)
 	if obs.Stage != "ran" {
 		return "mkSkip"
+	}
+	if strings.HasPrefix(c.Op, "cmd-") {
+		o := fmt.Sprintf("(mkObs %s %s %s %s %s %s)", coqBool(obs.Errored), coqBool(obs.Schema), coqStrList(obs.Names),
+			coqBool(obs.Stored), coqBool(obs.Sent), coqBool(obs.LintVals))
+		return fmt.Sprintf("(mkCase %s %s %s %s %s %s %s %s)", obs.chartTerm, coqVMap(deepCopyVals(c.Vals)), obs.compat, coqOpCmd(c),
+			coqBool(c.Skip), coqBool(c.SkipCRDs), o, "[]")
 	}
 	op := map[string]string{"install": "OpInstall", "install-dry": "OpInstallDry", "template": "OpTemplate",
 		"upgrade": "OpUpgrade", "upgrade-dry": "OpUpgradeDry", "lint": "OpLint"}[c.Op]
@@ -479,7 +496,7 @@ func (*c14) Corpus() []any {
 
 // Exhaustive: every keyword of the schema family against every kind of value, on a single chart
 // (the systematic part of the differential test of [valid] against the real library).
-func (*c14) Exhaustive(string) []any {
+func (*c14) Exhaustive(tier string) []any {
 	one, five := int64(1), int64(5)
 	schemas := []*vSchema{
 		{}, {Type: "object"}, {Type: "array"}, {Type: "string"}, {Type: "integer"}, {Type: "number"}, {Type: "boolean"}, {Type: "null"},
@@ -494,7 +511,7 @@ func (*c14) Exhaustive(string) []any {
 	values := []any{nil, true, false, 0.0, 1.0, 5.0, 6.0, -3.0, "", "a", []any{}, []any{1.0}, []any{0.0, "a"}, []any{[]any{1.0}},
 		map[string]any{}, map[string]any{"x": 1.0}, map[string]any{"x": "s", "y": 2.0}, map[string]any{"y": nil},
 		map[string]any{"x": map[string]any{"z": true}}, map[string]any{"x": map[string]any{"z": 1.0}}, map[string]any{"x": map[string]any{}}}
-	var out []any
+	out := c14CmdCases(tier)
 	for _, sc := range schemas {
 		for _, v := range values {
 			top := &vSchema{Type: "object", Props: map[string]*vSchema{"k": sc}}
